@@ -50,7 +50,7 @@ def SpendableSc (T : Kind → Id → Prop) (ms : Mid) (e : ScElem) : Prop :=
   T Kind.sc e.id ∧
   match ms.scDiff? e.id with
   | none => e ∈ ms.base.sc
-  | some d => d.spent = false ∧ d.e.value = e.value
+  | some d => d.spent = false ∧ d.e.value = e.value ∧ d.e.maturity = e.maturity
 
 theorem SpendableSc.agree {T ms ms' e} {P : Id → Prop} (h : SpendableSc T ms e) (ha : Agree ms ms' P) (hp : ¬ P e.id) :
     SpendableSc T ms' e := by
@@ -120,7 +120,7 @@ theorem spendSc_spec {T} {ms : Mid} (hc : Ctx T ms.base) (hI : Inv T ms) {e : Sc
     | some d =>
       rw [hv] at hm
       have := putSc_tot_found hI.struct hc.disj hT f hfid hv
-      have hd : scDv d = e.value := by unfold scDv; rw [hm.1]; exact hm.2
+      have hd : scDv d = e.value := by unfold scDv; rw [hm.1]; exact hm.2.1
       omega
   · exact sfTot_congr (putSc_base_c1 _ _ _) (putSc_sfes _ _ _)
 
